@@ -500,11 +500,72 @@ def observe(case):
     return res
 
 
+SEQ_FUNCS = ["slope.slope", "aspect.aspect", "curvature.curvature", "hillshade.hillshade", "classify.binary",
+             "classify.quantile", "classify.equal_interval", "classify.natural_breaks", "classify.reclassify",
+             "convolution.convolution_2d", "focal.mean", "focal.apply", "focal.hotspots", "focal.focal_stats",
+             "perlin.perlin", "terrain.generate_terrain", "zonal.regions", "zonal.trim", "proximity.proximity",
+             "pathfinding.a_star_search", "viewshed.viewshed", "analytics.summarize_terrain"]
+
+
+def observe_sequence(case):
+    """one raster handed to several functions in a row: it must be the same raster after every call
+    (call histories of the property's quantifier)"""
+    import warnings
+    warnings.filterwarnings("ignore")
+    rng = random.Random(case["seed"])
+    res = dict(case=case, status="ok", modified=[], owner_modified=[], shares=[], probe_modified=[], identity=[],
+               notes=[], steps=[])
+    shared, owner = mk_raster(rng, case["dtype"], case["layout"], case["backend"], nan=False, rname="elev", tag="shared")
+    before = snapshot(shared)
+    owner_before = np.array(owner, copy=True)
+    widened = False
+    outs = []
+    for fname in case["funcs"]:
+        sub = dict(func=fname, backend=case["backend"], dtype=case["dtype"], layout=case["layout"],
+                   seed=rng.randrange(1 << 30))
+        try:
+            f, I, kw = build(sub)
+            prim = next(n for n in I.args if n in ("agg", "raster", "surface", "terrain"))
+            I.args[prim] = shared
+            with warnings.catch_warnings():
+                warnings.simplefilter("ignore")
+                outs.append(f(**I.args, **kw))
+            st = "ok"
+        except Exception as ex:
+            st = "raised:" + type(ex).__name__
+        widened = widened or fname in WIDENS
+        d = diff("shared", before, snapshot(shared), allow_dtype=widened)
+        if not same_values(owner_before, owner):
+            d.append("shared: memory changed")
+        res["steps"].append(f"{fname}:{st}")
+        if d:
+            res["modified"] = [f"after {fname} (call {len(res['steps'])} of the sequence): " + "; ".join(d)]
+            res["culprit"] = fname
+            break
+    # writing to any of the outputs afterwards must not reach the shared raster either
+    if not res["modified"]:
+        for fname, out in zip(case["funcs"], outs):
+            if fname in VIEWS:
+                continue
+            for o in out_arrays(out):
+                try:
+                    if o.flags.writeable and o.size:
+                        o[...] = np.array(5).astype(o.dtype) if o.dtype.kind != "b" else True
+                except Exception:
+                    pass
+            d = diff("shared", before, snapshot(shared), allow_dtype=widened)
+            if d or not same_values(owner_before, owner):
+                res["probe_modified"] = [f"writing to the result of {fname} changed the shared raster: " + "; ".join(d)]
+                res["culprit"] = fname
+                break
+    return res
+
+
 def run_chunk(cases):
     out = []
     for c in cases:
         try:
-            out.append(observe(c))
+            out.append(observe_sequence(c) if c.get("kind") == "sequence" else observe(c))
         except Exception:
             out.append(dict(case=c, status="harness-error:" + traceback.format_exc()[-400:], modified=[],
                             owner_modified=[], shares=[], probe_modified=[], identity=[], notes=[]))
@@ -517,12 +578,14 @@ def run_parallel(cases, workers=None):
     from concurrent.futures import ProcessPoolExecutor
     groups = {}
     for c in cases:
-        groups.setdefault((c["func"], c["backend"]), []).append(c)
+        groups.setdefault((c.get("func", "sequence"), c["backend"]), []).append(c)
     chunks = []
     for g in groups.values():
-        step = 12 if g[0]["func"] not in SLOW else 4
+        step = 12 if g[0].get("func") not in SLOW else 4
+        if g[0].get("kind") == "sequence":
+            step = 3
         chunks.extend(g[i:i + step] for i in range(0, len(g), step))
-    chunks.sort(key=lambda ch: -len(ch) * (5 if ch[0]["func"] in SLOW else 1))
+    chunks.sort(key=lambda ch: -len(ch) * (5 if ch[0].get("func") in SLOW or ch[0].get("kind") == "sequence" else 1))
     workers = workers or min(14, max(2, (os.cpu_count() or 4) - 2))
     results = []
     with ProcessPoolExecutor(max_workers=workers, mp_context=mp.get_context("fork")) as ex:
@@ -727,11 +790,20 @@ def make_cases(rng, funcs, tier, full=False, only_backend=None):
 def judge(r, res, entries, preds):
     """oracle + correspondence for one observation"""
     c = res["case"]
+    if c.get("kind") == "sequence":
+        r.case(c, nontrivial=True, tags=["stream:sequence", f"backend:{c['backend']}", f"seqlen:{len(c['funcs'])}"])
+        if res["modified"] or res["probe_modified"]:
+            r.fail(f"{res.get('culprit')}:input-modified-in-sequence",
+                   f"sequence {c['funcs']} [{c['backend']}, {c['dtype']}, {c['layout']}]: "
+                   + "; ".join(res["modified"] + res["probe_modified"])[:400], c)
+        return
     key = c["func"]
     st = res["status"].split(":")[0]
     r.case(c, desc=c if len(r.samples) < 6 else None, nontrivial=True,
            tags=[f"fn:{key}", f"backend:{c['backend']}", f"dtype:{c['dtype']}", f"layout:{c['layout']}",
                  f"status:{res['status'] if st != 'ok' else 'ok'}"[:60]])
+    if st == "raised":
+        r.tag(f"raised:{key}:{c['backend']}:{res['status'].split(':')[1]}")
     if st in ("build-failed", "harness-error"):
         r.notes.append(f"{key} {c['backend']}/{c['dtype']}/{c['layout']}: {res['status'][:300]}")
         r.tag("harness-problem")
@@ -809,6 +881,13 @@ def run(r, full=False):
         # functions whose program is rejected get the whole matrix right away
         for _ in range(3):
             cases += make_cases(r.rng, bad, r.tier, full=True, only_backend="numpy")
+    avail = [f for f in SEQ_FUNCS if f in entries]
+    for _ in range({"quick": 10, "thorough": 60}[r.tier] if avail else 0):
+        backend = r.rng.choice(["numpy", "numpy", "dask"])
+        pool = [f for f in avail if backend == "numpy" or f not in NUMPY_ONLY]
+        cases.append(dict(kind="sequence", funcs=[r.rng.choice(pool) for _ in range(r.rng.randrange(3, 7))],
+                          backend=backend, dtype=r.rng.choice(DTYPES), layout=r.rng.choice(LAYOUTS),
+                          seed=r.rng.randrange(1 << 30)))
     t_obs = time.time()
     results = run_parallel(cases)
     for res in results:
@@ -834,9 +913,9 @@ def search(r):
 
 def replay(r, body):
     c = body["case"]
-    res = observe(c)
+    res = observe_sequence(c) if c.get("kind") == "sequence" else observe(c)
     bad = res["modified"] + res["owner_modified"] + res["probe_modified"] + res["identity"] + \
-        ([f"shares memory with {res['shares']}"] if res["shares"] and c["func"] not in VIEWS else [])
+        ([f"shares memory with {res['shares']}"] if res["shares"] and c.get("func") not in VIEWS else [])
     if bad:
         print("still fails:", "; ".join(bad)[:600])
         return 1
